@@ -197,6 +197,47 @@ def eval_filter(ctx, case):
         ctx.violation("filter:native-vs-sphinx", "native and Sphinx representation select different entries", case, {"native": got, "sphinx": got_s})
 
 
+def eval_filter_file(ctx, case):
+    """The same inventories written as v2 files and read back by MyST's own reader: the filters select what the model selects (a type is
+    everything after the FIRST colon of the file's 'domain:type' field), and the same as Sphinx' representation of Sphinx' own load of the file."""
+    import io
+
+    from sphinx.util.inventory import InventoryFile
+
+    from myst_parser import inventory as mi
+
+    invs, flt = case["invs"], case["filters"]
+    kw = dict(invs=flt[0], domains=flt[1], otypes=flt[2], targets=flt[3])
+    loaded, sph = {}, {}
+    for key, inv in invs.items():
+        rows = []
+        for d, dd in inv["objects"].items():
+            for t, td in dd.items():
+                if any(ch.isspace() for ch in d + t):
+                    return
+                for n, item in td.items():
+                    rows.append((n, f"{d}:{t}", 1, item["loc"].replace(" ", "%20"), item["text"] or "-"))
+        data = ser_v2(inv["name"], inv["version"] or "0", rows)
+        try:
+            loaded[key] = mi.load(io.BytesIO(data))
+            sph[key] = InventoryFile.load(io.BytesIO(data), "", lambda a, b: b)
+        except Exception as e:  # noqa: BLE001
+            ctx.violation("filter-file:load-raises:" + type(e).__name__, f"loading the generated inventory file raised {e!r}", case)
+            return
+    model = {k: {**inv, "objects": {d: {t: {n: {"loc": it["loc"].replace(" ", "%20"), "text": it["text"]} for n, it in td.items()} for t, td in dd.items()} for d, dd in inv["objects"].items()}} for k, inv in invs.items()}
+    exp = brute(model, *flt)
+    got = [(m.inv, m.domain, m.otype, m.name, m.loc, m.text) for m in mi.filter_inventories(loaded, **kw)]
+    ctx.count("filter_on_loaded_files")
+    if got != exp:
+        cls = "order" if sorted(got, key=repr) == sorted(exp, key=repr) else "set"
+        ctx.violation(f"filter-file:{cls}", "filter_inventories on the inventories read from v2 files differs from the brute-force filter over the entries written", case, {"got": got[:10], "expected": exp[:10]})
+        return
+    sph = {k: {dt: {n: tuple(v) for n, v in data.items()} for dt, data in v.items()} for k, v in sph.items()}
+    got_s = [(m.inv, m.domain, m.otype, m.name) for m in mi.filter_sphinx_inventories(sph, **kw)]
+    if sorted(got_s) != sorted(x[:4] for x in got):
+        ctx.violation("filter-file:native-vs-sphinx", "MyST's reader and Sphinx' reader of the same file give different selections", case, {"native": got[:10], "sphinx": got_s[:10]})
+
+
 # ---------------------------------------------------------------------------------- documents
 
 
@@ -474,6 +515,7 @@ def eval_case(ctx, case):
         eval_pair(ctx, case["pat"], case["name"])
     elif k == "filter":
         eval_filter(ctx, case)
+        eval_filter_file(ctx, case)
     elif k == "doc":
         eval_doc(ctx, case)
     elif k == "cli":
@@ -553,6 +595,7 @@ def run_shard(ctx):
         flt = [gen_filter(rng, pool_k), gen_filter(rng, pool_d), gen_filter(rng, pool_t), gen_filter(rng, pool_n)]
         case = {"kind": "filter", "invs": invs, "filters": flt}
         eval_filter(ctx, case)
+        eval_filter_file(ctx, case)
         nontrivial = any(f and ("*" in f or "\\" in f) for f in flt) and len(pool_n) >= 2
         ctx.case(("filter", json.dumps(case, sort_keys=True)), nontrivial)
         if i == 0:
